@@ -2,6 +2,7 @@ package main
 
 import (
 	"fmt"
+	"github.com/skx/evalfilter/v2/object"
 
 	"verif/internal/eng"
 	"verif/internal/ev"
@@ -67,6 +68,25 @@ func c06(c *ev.Ctx) {
 	c06Names(c)
 	c06Fixed(c)
 	c06PartialReturn(c)
+	// a built-in (also one the host adds later, after Prepare, between runs) wins over a
+	// function of the same name that the script defines
+	if c.Want("late-built-in") {
+		for _, noOpt := range []bool{false, true} {
+			script := `function area(w, h) { seen = "script"; return w * h + 1; } seen = "none"; return [area(3, 4), seen];`
+			evr, err := eng.New(script, eng.Options{NoOptimize: noOpt})
+			c.Case("late-built-in"+fmt.Sprint(noOpt), true)
+			if err != nil {
+				continue
+			}
+			first := evr.Exec(nil).Desc()
+			evr.E.AddFunction("area", func(a []object.Object) object.Object { return &object.Integer{Value: 1000} })
+			second := evr.Exec(nil).Desc()
+			third := evr.Exec(nil).Desc()
+			if first != "ARRAY:[13, script]" || second != "ARRAY:[1000, none]" || third != second {
+				c.Violation("late-built-in", "a function the host adds after Prepare does not win over the script's function", map[string]interface{}{"summary": fmt.Sprintf("%s (noopt=%v): before AddFunction %s (expected [13, script]), after it %s and %s (expected [1000, none])", script, noOpt, first, second, third), "script": script})
+			}
+		}
+	}
 	// recursion keeps working after calls that failed deep inside other calls (the stream
 	// is shared with C07)
 	c07Limits(c)
